@@ -120,7 +120,7 @@ EvalUn(op, a, dm) ==
              x == ConvTo(a.t, a.w, p, dm)
              fl == a.fl \cup PromoNote(a.t, dm) IN
          CASE op = "pos" -> Ok(p, x, fl)
-           [] op = "inv" -> Ok(p, WNot(x), fl)
+           [] op = "inv" -> Ok(p, WNot(x), fl \cup (IF IsSigned(p, dm) THEN {} ELSE {"inv-unsigned"}))
            [] op = "neg" -> IF IsSigned(p, dm)
                             THEN IF WIsMin(x) THEN Undef("signed overflow in unary -") ELSE Ok(p, WNeg(x), fl)
                             ELSE Ok(p, WNeg(x), fl \cup (IF WIsZero(x) THEN {} ELSE {"uwrap"}))
@@ -271,7 +271,7 @@ ExpectCase(v, sel, dm) ==
              c == Convert(v, ps, dm, "destU", "destS")
              n == Size(ps, dm)
              V == c.w
-             xs == <<V, WAdd(V, WOne(n)), WSub(V, WOne(n)), WZero(n), WNot(V), WOnes(n)>> IN
+             xs == <<V, WAdd(V, WOne(n)), WSub(V, WOne(n)), WZero(n), WNot(V)>> IN
          Exp("ok", "", c.fl, <<>>, 0,
              Mk([j \in 1..Len(xs) |-> [x |-> xs[j], r |-> Truth(xs[j] = V, dm)]]))
 
@@ -286,8 +286,8 @@ ExpectWidth(v, ft, dm) ==
          ELSE LET W == wd[1]
                   mask == IF W = 8 * n THEN WOnes(n) ELSE WShrL(WOnes(n), 8 * n - W)
                   one == WOne(n)
-                  xs == <<WOnes(n), one, WShl(one, W - 1), IF W < 8 * n THEN WShl(one, W) ELSE WZero(n),
-                          Mk([j \in 1..n |-> 85]), Mk([j \in 1..n |-> 170]), WZero(n)>> IN
+                  xs == <<WOnes(n), WShl(one, W - 1), IF W < 8 * n THEN WShl(one, W) ELSE WZero(n),
+                          Mk([j \in 1..n |-> 165])>> IN
               Exp("ok", "", v.fl \cup {"bitfield-width"}, <<>>, 0,
                   Mk([j \in 1..Len(xs) |-> [x |-> xs[j], r |-> WAnd(xs[j], mask)]]))
 
